@@ -1,6 +1,8 @@
 import TTV.Props.C03
 import TTV.Spec.C05
 import TTV.Lemmas.RunUnique
+import TTV.Generated.DetailSrc
+import TTV.Lemmas.SrcRefRes
 /-! # C05 — all details and every traceback reach the result
 
 Same quantifier as C01 (`Props/C01.lean`).  Hypothesis `wf p` (see `Spec/RunCommon.lean`), which for this
@@ -809,5 +811,90 @@ def demo : Program :=
 
 example : wf demo = true ∧ demo.skipDeco = none ∧ showsDetails demo.flavour = true := by decide
 example : lateCollision ⟨witness, 1⟩ = true := C05_finding_witness_class
+
+/-! ## the code itself (translator tie, DESIGN D.2a item 2e)
+
+`harness/pyres2lean.py` re-reads the detail-naming code on every run into `TTV/Generated/DetailSrc.lean`: the parameters of
+the three unique-name loops (recognised up to local names, layout and `== None`), and the canonical skeletons of
+`addDetail`, `getDetails`, `_add_reason`, `onException` and `RunTest._got_user_exception`. -/
+section src
+def loopOf (f : String) : List String := (TTV.SrcRef.DetailSrc.nameLoops.lookup f).getD []
+
+/-- **C05 (source: the unique-name loops).**  `addDetailUniqueName` and `gather_details` try the plain name first and then
+`name-1`, `name-2`, … built from the *original* name with a counter that starts at 1 for every call / detail — `uniqFrom`;
+`_report_traceback` tries the plain label first and then appends `-k` to the label *as it stands* (`traceback`,
+`traceback-1`, `traceback-1-2`, …) with a counter that starts at 0 and lives as long as the run — `tbLabel`. -/
+theorem C05_src_name_loops :
+    TTV.Generated.DetailSrc.nameLoops = TTV.SrcRef.DetailSrc.nameLoops ∧
+    loopOf "addDetailUniqueName" = ["start 1", "base original", "counter per-call", "first plain", "format %s-%d", "store addDetail"] ∧
+    loopOf "gather_details" = ["start 1", "base original", "counter per-detail", "first plain", "format %s-%d", "store copy-content"] ∧
+    loopOf "_report_traceback" =
+      ["start 0", "base cumulative", "counter per-run-and-label", "first plain", "format %s-%d", "store addDetail-traceback"] ∧
+    -- the model's loops, step by step
+    (∀ (n : DName) (k : Nat) (taken : List DName),
+      uniqFrom n k taken =
+        (let cand := if k = 0 then n else n.push k
+         if cand ∈ taken then uniqFrom n (k + 1) (taken.erase cand) else cand)) ∧
+    (∀ (names : List DName) (fuel c : Nat) (l : DName),
+      tbLabel names (fuel + 1) c l =
+        (let l' := if c = 0 then l else l.push c
+         if l' ∈ names then tbLabel names fuel (c + 1) l' else (l', c + 1))) := by
+  refine ⟨rfl, by decide, by decide, by decide, ?_, fun _ _ _ _ => rfl⟩
+  intro n k taken
+  rw [uniqFrom]
+  simp only
+  split <;> rfl
+
+/-- **C05 (source: `addDetail`, `getDetails`, `_add_reason`, the loops' bodies, `onException`).**  `addDetail` stores under
+the given name (plain set: the last value wins), `_add_reason` under the name `reason`, `onException` reports the traceback
+unless the class is one of the three no-traceback classes and then calls the user handlers in order. -/
+theorem C05_src_shapes :
+    TTV.Generated.DetailSrc.addDetail = TTV.SrcRef.DetailSrc.addDetail ∧
+    TTV.Generated.DetailSrc.getDetails = TTV.SrcRef.DetailSrc.getDetails ∧
+    TTV.Generated.DetailSrc.addReason = TTV.SrcRef.DetailSrc.addReason ∧
+    TTV.Generated.DetailSrc.addDetailUniqueName = TTV.SrcRef.DetailSrc.addDetailUniqueName ∧
+    TTV.Generated.DetailSrc.reportTraceback = TTV.SrcRef.DetailSrc.reportTraceback ∧
+    TTV.Generated.DetailSrc.gatherDetails = TTV.SrcRef.DetailSrc.gatherDetails ∧
+    TTV.Generated.DetailSrc.onException = TTV.SrcRef.DetailSrc.onException :=
+  ⟨rfl, rfl, rfl, rfl, rfl, rfl, rfl⟩
+
+/-- **C05 (source: `RunTest._got_user_exception`).**  A non-empty `MultipleExceptions` is unpacked in the order of its
+arguments, each through `_got_user_exception` again (`gotAll`); a plain exception goes to `onException` (traceback, user
+handlers) and is then appended to `_exceptions` (`got`). -/
+theorem C05_src_got_user_exception :
+    TTV.Generated.DetailSrc.gotUserException = TTV.SrcRef.DetailSrc.gotUserException ∧
+    (∀ (s : RS) (e : Exc) (es : List Exc), gotAll s (e :: es) = gotAll (got s e) es) ∧
+    (∀ (s : RS) (e : Exc), (got s e).excs = s.excs ++ [e]) := by
+  refine ⟨rfl, fun _ _ _ => rfl, fun s e => ?_⟩
+  simp only [got]
+  split <;> simp [reportTb]
+/-- **C05 (source: the reporters, what a run resets, fixtures, cleanups).**  The five `_report_*` handlers end with one call of the
+outcome method with `details=self.getDetails()` (the details are read when the outcome is reported); `_report_skip` adds the
+reason first; `__init__` calls `_reset()` and then creates the `addOnException` handler list (so `_reset()` — a second run — keeps
+the handlers); `_reset` empties the cleanups, the traceback counters and the details; `expectFailure` adds the reason, then
+the traceback; `useFixture` gathers the fixture's details; `_run_cleanups` pops until the list is empty. -/
+theorem C05_src_reports :
+    TTV.Generated.DetailSrc.caseInit = TTV.SrcRef.DetailSrc.caseInit ∧
+    TTV.Generated.DetailSrc.caseReset = TTV.SrcRef.DetailSrc.caseReset ∧
+    TTV.Generated.DetailSrc.expectFailure = TTV.SrcRef.DetailSrc.expectFailure ∧
+    TTV.Generated.DetailSrc.useFixture = TTV.SrcRef.DetailSrc.useFixture ∧
+    TTV.Generated.DetailSrc.reportError = TTV.SrcRef.DetailSrc.reportError ∧
+    TTV.Generated.DetailSrc.reportExpectedFailure = TTV.SrcRef.DetailSrc.reportExpectedFailure ∧
+    TTV.Generated.DetailSrc.reportFailure = TTV.SrcRef.DetailSrc.reportFailure ∧
+    TTV.Generated.DetailSrc.reportSkip = TTV.SrcRef.DetailSrc.reportSkip ∧
+    TTV.Generated.DetailSrc.reportUnexpectedSuccess = TTV.SrcRef.DetailSrc.reportUnexpectedSuccess ∧
+    TTV.Generated.DetailSrc.runCleanups = TTV.SrcRef.DetailSrc.runCleanups ∧
+    TTV.SrcRef.DetailSrc.reportSkip.drop 8 =
+      ["  self._add_reason(v0)", "  a0.addSkip(self, details=self.getDetails())"] ∧
+    TTV.SrcRef.DetailSrc.reportError.drop 2 = ["  a0.addError(self, details=self.getDetails())"] ∧
+    TTV.SrcRef.DetailSrc.reportFailure.drop 2 = ["  a0.addFailure(self, details=self.getDetails())"] ∧
+    TTV.SrcRef.DetailSrc.reportExpectedFailure.drop 2 = ["  a0.addExpectedFailure(self, details=self.getDetails())"] ∧
+    TTV.SrcRef.DetailSrc.reportUnexpectedSuccess.drop 2 = ["  a0.addUnexpectedSuccess(self, details=self.getDetails())"] ∧
+    TTV.SrcRef.DetailSrc.caseReset.drop 1 =
+      ["  self._cleanups = []", "  self._unique_id_gen = itertools.count(1)", "  self._traceback_id_gens = {}",
+       "  self.__setup_called = False", "  self.__teardown_called = False", "  self.__details = None"] :=
+  ⟨rfl, rfl, rfl, rfl, rfl, rfl, rfl, rfl, rfl, rfl, rfl, rfl, rfl, rfl, rfl, rfl⟩
+
+end src
 
 end TTV.Props.C05
